@@ -341,6 +341,26 @@ func inModulePkg(path string) bool { return strings.HasPrefix(path, modulePath) 
 // and what is stored there is syntactically non-nil (a constructor call from the allow-list,
 // an allocation, a conversion of a non-nil value to an interface, a function).
 func (p *Prog) checkNonNilGlobal(g *ssa.Global) string {
+	if tn, typed := p.cs.GlobalTypes[g.Pkg.Pkg.Path()+"::"+g.Name()]; typed {
+		// a declared dynamic type is only accepted for the constructors whose result type is known
+		want := map[string]string{"*errors.errorString": "errors.New"}
+		ctor, ok := want[tn]
+		if !ok {
+			return "declared dynamic type " + tn + " is not one the scan can confirm"
+		}
+		for fn := range p.allFns {
+			for _, b := range fn.Blocks {
+				for _, ins := range b.Instrs {
+					if st, ok := ins.(*ssa.Store); ok && st.Addr == g {
+						c, isCall := st.Val.(*ssa.Call)
+						if !isCall || c.Call.StaticCallee() == nil || c.Call.StaticCallee().String() != ctor {
+							return "not initialised by " + ctor
+						}
+					}
+				}
+			}
+		}
+	}
 	nonNilCall := map[string]bool{"errors.New": true, "fmt.Errorf": true, "regexp.MustCompile": true}
 	var okInit bool
 	for fn := range p.allFns {
